@@ -23,6 +23,34 @@ import Sqfs.Proofs.ReaderTables
 namespace Sqfs.C05
 open Sqfs.ReaderBounds Sqfs.ReaderWalk Sqfs.ReaderTables
 
+/-! ### instances used by the examples that follow the theorems -/
+
+/-- a reader over blocks of 100 uncompressed bytes -/
+def exCfg : MetaCfg := ⟨96, 100000, fun _ => ⟨false, 0x8064, false, none⟩⟩
+
+/-- a valid superblock (what the checks make of single field edits: see the examples at the end) -/
+def exSuper : Super where
+  magic := 0x73717368
+  inodeCount := 3
+  modTime := 0
+  blockSize := 131072
+  fragCount := 1
+  compId := 1
+  blockLog := 17
+  flags := 0
+  idCount := 2
+  vMajor := 4
+  vMinor := 0
+  rootRef := 0
+  bytesUsed := 1000
+  idTableStart := 900
+  xattrIdTableStart := 950
+  inodeTableStart := 96
+  dirTableStart := 300
+  fragTableStart := 500
+  exportTableStart := 0xFFFFFFFFFFFFFFFF
+
+
 /-! ## `meta_reader.c` -/
 
 /-- `sqfs_meta_reader_seek`: from any state with `data_used ≤ 8192`, for every block position, offset, header
@@ -196,6 +224,9 @@ theorem id_table_read_safe (s : Super) (rt : Except Err Unit) (stepOk : Nat → 
 theorem index_to_id_safe (used : UInt64) (index : UInt16) (as : List Access) (h : indexToId used index = .ok as) :
     ∀ a ∈ as, a.inBounds := indexToId_safe used index as h
 
+/-- instance (hypothesis discharged on the *succeeding* call): index 1 of a table of 2 ids — one access, 4 bytes at offset 4 of 8 -/
+example : ∀ a ∈ [Access.mk .idTable 4 4 8], a.inBounds := index_to_id_safe 2 1 _ (by decide)
+
 /-- `sqfs_frag_table_read`: for every superblock that gets as far as `sqfs_read_table`, the size
 `fragment_entry_count * 16` is exact (no wrap), the location lies in `[directory_table_start, id_table_start)` and
 below `bytes_used`, the meta reader window ends at or before `id_table_start`, and the table is filled exactly -/
@@ -209,6 +240,9 @@ theorem frag_table_read_safe (s : Super) (req : TableReq) (stepOk : Nat → Bool
 /-- `sqfs_frag_table_lookup` -/
 theorem frag_lookup_safe (used : UInt64) (index : UInt32) (as : List Access) (h : fragLookup used index = .ok as) :
     ∀ a ∈ as, a.inBounds := fragLookup_safe used index as h
+
+/-- instance (hypothesis discharged): fragment 1 of a table of 2 — one access of `sizeof(sqfs_fragment_t)` = 16 bytes at offset 16 of 32 -/
+example : ∀ a ∈ [Access.mk .fragTable 16 16 32], a.inBounds := frag_lookup_safe 2 1 _ (by decide)
 
 /-! ## `xattr_reader.c`
 
@@ -228,9 +262,31 @@ theorem xattr_get_desc_safe (c : MetaCfg) (hc : MetaCodecOk c) (x : XattrSt) (id
     (∀ a ∈ (xattrGetDesc c x idx).acc, a.inBounds) ∧ XattrInv (xattrGetDesc c x idx).st :=
   xattrGetDesc_spec c hc x idx hx
 
+/-- instance with the invariant of a **loaded** reader (600 ids, 2 id blocks; `XattrInv` obtained from `xattr_load_safe`, so
+the two theorems are applied in sequence): descriptor 512 lies in the second id block -/
+example :
+    let x1 := (xattrLoad exSuper XattrSt.init false 96 600 false (fun i => 100 + 10 * i.toUInt64)).st
+    x1.loaded = true ∧ (∀ a ∈ (xattrGetDesc exCfg x1 512).acc, a.inBounds) ∧ XattrInv (xattrGetDesc exCfg x1 512).st := by
+  intro x1
+  have hinv : XattrInv x1 :=
+    (xattr_load_safe exSuper XattrSt.init false 96 600 false (fun i => 100 + 10 * i.toUInt64) XattrInv_init).2
+  exact ⟨by decide, xattr_get_desc_safe exCfg (by intro b n h; simp [exCfg] at h) x1 512 hinv⟩
+
 theorem xattr_seek_kv_safe (c : MetaCfg) (hc : MetaCodecOk c) (x : XattrSt) (xattr : UInt64) (hx : XattrInv x) :
     (∀ a ∈ (xattrSeekKv c x xattr).acc, a.inBounds) ∧ XattrInv (xattrSeekKv c x xattr).st :=
   xattrSeekKv_spec c hc x xattr hx
+
+/-- instance on the loaded reader: seek to the key/value pairs at block 200, offset 5 -/
+example :
+    let x1 := (xattrLoad exSuper XattrSt.init false 96 600 false (fun i => 100 + 10 * i.toUInt64)).st
+    (∀ a ∈ (xattrSeekKv exCfg x1 ((200 : UInt64) <<< 16 ||| 5)).acc, a.inBounds) ∧
+      XattrInv (xattrSeekKv exCfg x1 ((200 : UInt64) <<< 16 ||| 5)).st ∧
+      (xattrSeekKv exCfg x1 ((200 : UInt64) <<< 16 ||| 5)).acc ≠ [] := by
+  intro x1
+  have hinv : XattrInv x1 :=
+    (xattr_load_safe exSuper XattrSt.init false 96 600 false (fun i => 100 + 10 * i.toUInt64) XattrInv_init).2
+  have h := xattr_seek_kv_safe exCfg (by intro b n h; simp [exCfg] at h) x1 ((200 : UInt64) <<< 16 ||| 5) hinv
+  exact ⟨h.1, h.2, by decide⟩
 
 /-- `sqfs_xattr_reader_read_key`: header, prefix and `key.size` bytes fit the `4 + strlen(prefix) + size + 1` bytes
 allocated -/
@@ -257,6 +313,16 @@ theorem xattr_read_all_safe (c : MetaCfg) (hc : MetaCodecOk c) (x : XattrSt) (id
     (count : UInt32) (ans : Nat → KvAns) (hx : XattrInv x) :
     (∀ a ∈ (xattrReadAll c x idx xattr count ans).acc, a.inBounds) ∧
     XattrInv (xattrReadAll c x idx xattr count ans).st := xattrReadAll_spec c hc x idx xattr count ans hx
+
+/-- instance on the loaded reader: `read_all` for descriptor 512 with two pairs (`user.` prefix, 3-byte keys, 7-byte values) -/
+example :
+    let x1 := (xattrLoad exSuper XattrSt.init false 96 600 false (fun i => 100 + 10 * i.toUInt64)).st
+    (∀ a ∈ (xattrReadAll exCfg x1 512 5 2 (fun _ => ⟨1, 3, 7, 0⟩)).acc, a.inBounds) ∧
+      XattrInv (xattrReadAll exCfg x1 512 5 2 (fun _ => ⟨1, 3, 7, 0⟩)).st := by
+  intro x1
+  have hinv : XattrInv x1 :=
+    (xattr_load_safe exSuper XattrSt.init false 96 600 false (fun i => 100 + 10 * i.toUInt64) XattrInv_init).2
+  exact xattr_read_all_safe exCfg (by intro b n h; simp [exCfg] at h) x1 512 5 2 (fun _ => ⟨1, 3, 7, 0⟩) hinv
 
 /-- `sqfs_xattr_reader_read_all` ends: `count` iterations, every meta reader call in them ends -/
 theorem xattr_read_all_terminates (c : MetaCfg) (x : XattrSt) (idx : UInt32) (xattr : UInt64) (count : UInt32)
@@ -299,16 +365,31 @@ theorem read_link_safe (targetSize : UInt32) : ∀ a ∈ readLink targetSize, a.
 
 /-! ## termination of the directory walks -/
 
-/-- `fill_dir` (rdsquashfs, sqfsdiff): for every directory graph — cycles included — whose inode numbers lie in a
-list `S`, recursion depth never exceeds `|S|`: with fuel `|S|` the walk ends with a tree or `LINK_LOOP`, never
-out of fuel -/
-theorem fill_dir_terminates (g : DirGraph) (S : List UInt32) (hS : ∀ r, g.inum r ∈ S) (root : Nat) :
+/-- `fill_dir` (rdsquashfs, sqfsdiff): for every directory graph — cycles included — recursion depth never exceeds
+`|S|`, where `S` is any list holding the inode numbers of the root and of every listing entry that is a directory
+(the shape of `dir_rec_terminates`'s `R`; nothing is asked of references that occur in no listing): with fuel `|S|` the
+walk ends with a tree or `LINK_LOOP`, never out of fuel -/
+theorem fill_dir_terminates (g : DirGraph) (S : List UInt32) (root : Nat) (hroot : g.inum root ∈ S)
+    (hS : ∀ r c, c ∈ g.entries r → g.isDir c = true → g.inum c ∈ S) :
     readTree g S.length root ≠ .error .fuel := by
   unfold readTree
   apply fillDir_ne_fuel g S hS
   · simp
-  · intro x hx; simp at hx; subst hx; exact hS root
+  · intro x hx; simp at hx; subst hx; exact hroot
   · simp
+
+/-- instance (all hypotheses discharged) on a graph whose inode numbers are injective (`inum r = r`, so no `S` shorter
+than 2³² could cover *all* references): a tree of 4 directories, `S = [0, 1, 2, 3]` -/
+example : readTree ⟨fun r => if r = 0 then [1, 2] else if r = 1 then [3] else [], fun _ => true, fun r => r.toUInt32⟩
+    [(0 : UInt32), 1, 2, 3].length 0 ≠ .error .fuel := by
+  refine fill_dir_terminates _ [0, 1, 2, 3] 0 (by decide) ?_
+  intro r c h _
+  simp only at h
+  split at h
+  · simp at h; rcases h with rfl | rfl <;> decide
+  · split at h
+    · simp at h; subst h; decide
+    · simp at h
 
 /-- `dir_rec.c` with the ancestor check of `fixes/C05-dir-rec-loop.patch` (sqfs2tar): for every directory graph
 whose directory entries have inode references in a list `R`, depth never exceeds `|R|` -/
@@ -393,14 +474,29 @@ theorem dir_rec_depth_bounded (g : DirGraph) (limit root : Nat) :
 
 /-- whatever the value of the nesting limit: `would_be_own_parent` still bounds the depth of the repaired `fill_dir`
 by the number of inode numbers -/
-theorem fill_dir_v_terminates (g : DirGraph) (limit : Nat) (S : List UInt32) (hS : ∀ r, g.inum r ∈ S) (root : Nat) :
+theorem fill_dir_v_terminates (g : DirGraph) (limit : Nat) (S : List UInt32) (root : Nat) (hroot : g.inum root ∈ S)
+    (hS : ∀ r c, c ∈ g.entries r → g.isDir c = true → g.inum c ∈ S) :
     readTreeV g limit S.length root ≠ .error .fuel := by
   unfold readTreeV
   have := fillDirV_ne_fuel g limit S hS S.length 0 [g.inum root] [g.inum root] root (by simp)
-    (by intro x hx; simp at hx; subst hx; exact hS root) (by simp)
+    (by intro x hx; simp at hx; subst hx; exact hroot) (by simp)
   split
   · simp
   · rename_i e he; intro h; simp only [Except.error.injEq] at h; subst h; exact this he
+
+/-- instance (all hypotheses discharged): the same tree, a one-directory cycle below it (`3` lists itself), limit 4096 -/
+example : readTreeV ⟨fun r => if r = 0 then [1, 2] else if r = 1 then [3] else if r = 3 then [3] else [], fun _ => true,
+    fun r => r.toUInt32⟩ 4096 [(0 : UInt32), 1, 2, 3].length 0 ≠ .error .fuel := by
+  refine fill_dir_v_terminates _ 4096 [0, 1, 2, 3] 0 (by decide) ?_
+  intro r c h _
+  simp only at h
+  split at h
+  · simp at h; rcases h with rfl | rfl <;> decide
+  · split at h
+    · simp at h; subst h; decide
+    · split at h
+      · simp at h; subst h; decide
+      · simp at h
 
 /-- whatever the value of the nesting limit: the visited set alone (it replaces the ancestor list of the unpatched
 tree) bounds the depth of the recursive iterator by the number of directory inode references -/
@@ -415,8 +511,6 @@ theorem dir_rec_v_terminates (g : DirGraph) (limit : Nat) (R : List Nat)
 
 /-! ## non-vacuity: the hypotheses are satisfiable and the conclusions speak about real accesses -/
 
-/-- a reader over blocks of 100 uncompressed bytes -/
-def exCfg : MetaCfg := ⟨96, 100000, fun _ => ⟨false, 0x8064, false, none⟩⟩
 
 example : MetaCodecOk exCfg := by intro b n h; simp [exCfg] at h
 example : (mread true exCfg (seek exCfg MetaSt.init 96 10).st 150).acc.length = 5 := by decide
@@ -468,27 +562,6 @@ example : readTreeV exChain 2 4 0 = .error .overflow := by decide
 example : tarWalkV exChain 3 4 0 = .ok 4 := by decide
 example : tarWalkV exChain 2 3 0 = .error .overflow := by decide
 
-/-- a valid superblock, and what the checks make of single field edits -/
-def exSuper : Super where
-  magic := 0x73717368
-  inodeCount := 3
-  modTime := 0
-  blockSize := 131072
-  fragCount := 1
-  compId := 1
-  blockLog := 17
-  flags := 0
-  idCount := 2
-  vMajor := 4
-  vMinor := 0
-  rootRef := 0
-  bytesUsed := 1000
-  idTableStart := 900
-  xattrIdTableStart := 950
-  inodeTableStart := 96
-  dirTableStart := 300
-  fragTableStart := 500
-  exportTableStart := 0xFFFFFFFFFFFFFFFF
 example : (superRead false exSuper).1 = .ok () := by decide
 example : (superRead false { exSuper with blockSize := 0 }).1 = .error .superBlockSize := by decide
 example : (superRead false { exSuper with blockLog := 16 }).1 = .error .corrupted := by decide
@@ -508,4 +581,33 @@ example : (dirEntryFromInode 2 1 2 [97] 1).1 = .error .corrupted := by decide
 example : (openDir true 0 300 0 (fun i => if i = 5 then some 0 else none) ⟨1, 0, 0, 3, 5, 6⟩).map (·.state) = .ok .opened := by
   decide
 
+/-! further theorems applied with every hypothesis discharged (the report's "P" rows) -/
+
+/-- `exTree`'s directory entries have references in `[0, 1, 2, 3]` -/
+theorem exTree_refs : ∀ r c, c ∈ exTree.entries r → exTree.isDir c = true → c ∈ [0, 1, 2, 3] := by
+  intro r c h _
+  simp only [exTree] at h
+  split at h
+  · simp at h; rcases h with rfl | rfl <;> decide
+  · split at h
+    · simp at h; subst h; decide
+    · simp at h
+
+example : tarWalk true exTree ([0, 1, 2, 3].length + 1) 0 ≠ .error .fuel := dir_rec_terminates exTree [0, 1, 2, 3] exTree_refs 0
+example : tarWalkV exTree 4096 ([0, 1, 2, 3].length + 1) 0 ≠ .error .fuel := dir_rec_v_terminates exTree 4096 [0, 1, 2, 3] exTree_refs 0
+example : 3 ≤ listingEntries exTree [0, 1, 2, 3] :=
+  fill_dir_nodes_linear exTree 4096 5 0 3 [0, 1, 2, 3] (by decide) exTree_refs (by decide) (by decide)
+example : 3 ≤ (exTree.entries 0).length + listingEntries exTree [0, 1, 2, 3] :=
+  dir_rec_nodes_linear exTree 4096 5 0 3 [0, 1, 2, 3] (by decide) exTree_refs (by decide)
+/-- key, value and the whole pair of an xattr with an out-of-line value, from a reader positioned by `seek` -/
+example :
+    let m := (seek exCfg MetaSt.init 96 0).st
+    let a : KvAns := ⟨0x101, 3, 7, ((200 : UInt64) <<< 16) ||| 5⟩
+    (∀ x ∈ (kvReadKey exCfg a m).acc, x.inBounds) ∧ (∀ x ∈ (kvReadValue exCfg 96 100000 a m).acc, x.inBounds) ∧
+      (∀ x ∈ (kvRead exCfg 96 100000 a m).acc, x.inBounds) := by
+  intro m a
+  have hc : MetaCodecOk exCfg := by intro b n h; simp [exCfg] at h
+  have hm : m.dataUsed.toNat ≤ metaCap := by decide
+  exact ⟨(xattr_read_key_safe exCfg hc a m hm).1, (xattr_read_value_safe exCfg hc 96 100000 a m hm).1,
+    (xattr_read_safe exCfg hc 96 100000 a m hm).1⟩
 end Sqfs.C05
